@@ -132,6 +132,7 @@ func (fr *Frame) havocModSet(st *State, ms *modSet, locs []modLoc, hint string) 
 		if k == allocKey || k == allocAKey {
 			old := st.H(k, allocSort)
 			nw := Fresh("alloc", allocSort)
+			st.assume(Not(Select(nw, IntLit(0)))) // nil is never an allocated object
 			r := Bound("r", SInt)
 			st.assume(Forall([]*Term{r}, Implies(Select(old, r), Select(nw, r)), []*Term{Select(nw, r)}, []*Term{Select(old, r)}))
 			st.setH(k, nw)
